@@ -127,7 +127,21 @@ def v_log(ex, fr, st, args, ins):
     return None
 
 
+def v_go(ex, fr, st, args, ins):
+    return None
+
+
+def v_wait(ex, fr, st, args, ins):
+    return None
+
+
+def v_watch(ex, fr, st, args, ins):
+    ex.watch = ex.nobj + 1
+    return None
+
+
 HARNESS = {
+    '#vGo': v_go, '#vWait': v_wait, '#vWatch': v_watch,
     '#vBits': v_bits, '#vBytes': v_bytes, '#vBool': v_bool, '#vInt': v_int, '#vFloat01': v_float01,
     '#vReal': v_real, '#vAssume': v_assume, '#vAssert': v_assert, '#vClose': v_close, '#vReach': v_reach,
     '#vLog': v_log,
